@@ -6,6 +6,7 @@ import QSP.Model.Proto
 import QSP.Model.Hist
 import QSP.Model.Cheb
 import QSP.Model.Ball
+import QSP.Model.Validators
 open QSP QSP.Proto
 
 def bad : String := "bad-op"
@@ -21,6 +22,10 @@ def withInt2 (a b : String) (f : Int → Int → String) : String :=
 
 def showLAE : Except Err (LA Rat) → String := showExcept showLA
 def showLPE : Except Err (LP Rat) → String := showExcept showLP
+
+def showV : Except Err VOut → String
+  | .ok v => s!"{v.ok} {v.stage} {showRat v.bound} {v.evals}"
+  | .error e => showErr e
 
 def parseOp (s : String) : Option (Op Rat) :=
   match s.splitOn ":" with
@@ -145,6 +150,43 @@ def handle (toks : List String) : String :=
     match parseRatList l with
     | some l => showLPE (polyToLaurentForm l)
     | none => bad
+  -- validators ---------------------------------------------------------------------------
+  | ["valid.c01", bits, depth, eps, suc, tol, p, phis] =>
+    match bits.toNat?, depth.toNat?, parseRat eps, parseRat suc, parseRat tol, parseRatList p, parseRatList phis with
+    | some b, some dp, some e, some s, some t, some p, some ph => showV (validC01 p e s t ph b dp)
+    | _, _, _, _, _, _, _ => bad
+  | ["valid.c02", bits, depth, tol, pre, pim, phis] =>
+    match bits.toNat?, depth.toNat?, parseRat tol, parseRatList pre, parseRatList pim, parseRatList phis with
+    | some b, some dp, some t, some pr, some pi, some ph => showV (validC02 pr pi t ph b dp)
+    | _, _, _, _, _, _ => bad
+  | ["valid.c04", tol, f, g] =>
+    match parseRat tol, parseRatList f, parseRatList g with
+    | some t, some f, some g => showV (validC04 f g t)
+    | _, _, _ => bad
+  | ["valid.c05", depth, tol, pre, pim, f, g] =>
+    match depth.toNat?, parseRat tol, parseRatList pre, parseRatList pim, parseRatList f, parseRatList g with
+    | some dp, some t, some pr, some pi, some f, some g => showV (validC05 pr pi f g t dp)
+    | _, _, _, _, _, _ => bad
+  | ["valid.c06", bits, tolE, tolG, phis, phis2] =>
+    match bits.toNat?, parseRat tolE, parseRat tolG, parseRatList phis, parseRatList phis2 with
+    | some b, some te, some tg, some ph, some ph2 => showV (validC06 ph ph2 te tg b)
+    | _, _, _, _, _ => bad
+  | ["valid.c07", bits, depth, eps, suc, p, phis] =>
+    match bits.toNat?, depth.toNat?, parseRat eps, parseRat suc, parseRatList p, parseRatList phis with
+    | some b, some dp, some e, some s, some p, some ph => showV (validC07 p e s ph b dp)
+    | _, _, _, _, _, _ => bad
+  | ["valid.c13", bits, depth, budget, par, c, phis] =>
+    match bits.toNat?, depth.toNat?, parseRat budget, par.toNat?, parseRatList c, parseRatList phis with
+    | some b, some dp, some bu, some pa, some c, some ph => showV (validC13 c pa ph bu b dp)
+    | _, _, _, _, _, _ => bad
+  | ["cheb.suple", bnd, depth, c] =>
+    match parseRat bnd, depth.toNat?, parseRatList c with
+    | some b, some dp, some c => let r := chebSupLe c b dp; s!"{r.1} {r.2}"
+    | _, _, _ => bad
+  | ["cheb.eval", c, x] =>
+    match parseRatList c, parseRat x with
+    | some c, some x => showRat (chebEval c x)
+    | _, _ => bad
   -- sup-norm certificate -----------------------------------------------------------------
   | ["sup.real", bnd, depth, d, l] =>
     match parseRat bnd, depth.toNat?, d.toInt?, parseRatList l with
